@@ -90,6 +90,46 @@ def deep(o, depth=0):
     return repr(o)
 
 
+def global_fingerprint():
+    """Hash of every module-level and class-level mutable container of the package (instruction maps,
+    micro-program tables, Settings, class-level sets ...).  The web UI keeps several simulations alive in
+    one process, so an inspection function that edits such a table changes what *other* instances show
+    later - invisible to a shadow living in the same process, visible here."""
+    items = []
+    for name in sorted(sys.modules):
+        if not name.startswith("architecture_simulator"):
+            continue
+        mod = sys.modules[name]
+        if mod is None:
+            continue
+        for k, v in list(vars(mod).items()):
+            if k.startswith("__"):
+                continue
+            if isinstance(v, (list, dict, set, frozenset)):
+                items.append((name, k, _fp(v)))
+            elif isinstance(v, type) and getattr(v, "__module__", None) == name:
+                for ck, cv in list(vars(v).items()):
+                    if not ck.startswith("__") and isinstance(cv, (list, dict, set, frozenset)):
+                        items.append((name, v.__name__ + "." + ck, _fp(cv)))
+    return items
+
+
+def _fp(v, depth=0):
+    if isinstance(v, (set, frozenset)):
+        return ("set", tuple(sorted(_fp(x, depth + 1) if not isinstance(x, type) else x.__name__ for x in v)))
+    if isinstance(v, dict):
+        return ("dict", tuple((str(k), _fp(x, depth + 1)) for k, x in v.items()))
+    if isinstance(v, (list, tuple)):
+        return ("list", tuple(_fp(x, depth + 1) for x in v))
+    if isinstance(v, (str, int, float, bool, type(None))):
+        return v
+    if isinstance(v, type):
+        return v.__name__
+    if hasattr(v, "__dict__") and depth < 4:
+        return (type(v).__name__, tuple((k, _fp(x, depth + 1)) for k, x in sorted(vars(v).items())))
+    return type(v).__name__
+
+
 def call_insp(sim, isa, mode, name):
     """One inspection call; an inspection function that raises is data, not an error."""
     try:
@@ -470,6 +510,8 @@ class Subject:
     def inspect(self, names, reps=1):
         """Inspection calls on the SUT (and, equally, on S13/S20 so that inspection effects
         cancel out of the lifecycle comparison); never on S16."""
+        check_globals = "C16" in self.props
+        g0 = global_fingerprint() if check_globals else None
         for n in names:
             for _ in range(reps):
                 call_insp(self.sut, self.isa, self.mode, n)
@@ -477,6 +519,12 @@ class Subject:
                     if sh is not None:
                         call_insp(sh, self.isa, self.mode, n)
         self.res.probes["inspection calls"] += len(names) * reps
+        if check_globals:
+            g1 = global_fingerprint()
+            if g1 != g0:
+                changed = [f"{a[0]}:{a[1]}" for a, b in zip(g0, g1) if a != b][:4]
+                self.violate("C16", "inspection-changed-process-wide-state", tables=changed, functions=list(names)[:13],
+                             note="an inspection function edited a module/class-level table shared by all simulation instances")
 
     # ---- comparison point
     def compare(self, deep_s16=True):
@@ -484,7 +532,15 @@ class Subject:
         if self.dead or self.faulted:
             return
         isa, mode = self.isa, self.mode
+        g0 = global_fingerprint() if "C16" in self.props else None
         a = snapshot(self.sut, isa, mode)
+        if g0 is not None:
+            g1 = global_fingerprint()
+            if g1 != g0:
+                changed = [f"{x[0]}:{x[1]}" for x, y in zip(g0, g1) if x != y][:4]
+                self.violate("C16", "inspection-changed-process-wide-state", tables=changed,
+                             note="an inspection function edited a module/class-level table shared by all simulation instances")
+                return
         self.hs.add("snap", a.get("pm"), a.get("pc"), a.get("is_done"), a.get("get_output"), a.get("timer"))
         if "C16" in self.props and deep_s16:
             try:
